@@ -1,6 +1,7 @@
 """C02: decided on the database-level Coq model (DB.v) — theorems in coq/Prop_C02.v, tie by correspondence."""
 from common import *  # noqa
 import dbtie
+import memtie
 
 PROFILE = {'scenario_also': ['ne_writes'], 'scenario_pref': ['redate_remove', 'underscore_keys', 'big_ints', 'hash_twins', 'hash_twins', 'noop_compose', 'epoch', 'sparse_write', 'sparse_write', 'same_count', 'nested_not', 'remove_first', 'ooo_then_remove', 'nested_not', 'hash_twins'], 'p_write': 0.55, 'writes': {'insert': 2, 'insert_multiple': 1, 'remove': 6, 'drop': 2, 'remove_all': 1, 'update': 1, 'reindex': 0.5, 'reopen': 0.5, 'handle': 1.5}}
 
@@ -9,12 +10,16 @@ def main(tier, seed):
     # what a removal decides is regenerated from database.py (symbolic execution of _remove_helper, with _reset_database, remove, drop_measurement
     # and - through py2coq_read.py - the read_op decorator) and proved equal to the model's removal (proofs/RemoveGenP.v)
     refused = []
+    mtie = {}
 
     def regen():
         run_translator("py2coq_read.py", "tinyflux", "gen/ReadGen.v", refused)
         run_translator("py2coq_remove.py", "tinyflux", "gen/RemoveGen.v", refused)
+        # class MemoryStorage, every method (the storage a removal rewrites when the database lives in memory)
+        run_translator("py2coq_memstore.py", "tinyflux/storages.py", "gen/MemStoreGen.v", refused)
     return dbtie.db_check("C02", tier, seed, PROFILE, 650, 6000, "Prop_C02",
                           "user callables and re are an environment the theorems quantify over; the tie instantiates them with the twin table",
-                          pre=regen, extra_cov={"translator": {"source": "tinyflux/database.py: TinyFlux._remove_helper (symbolic execution; its two loops and the try / except around the swap recognised literally), "
+                          pre=regen, direct=lambda ck, tf: mtie.update(memtie.check(ck, tf, refused) or {}), extra_cov={"translator": {"source": "tinyflux/database.py: TinyFlux._remove_helper (symbolic execution; its two loops and the try / except around the swap recognised literally), "
                                                                          "_reset_database, remove, drop_measurement, read_op / reindex -> coq/gen/RemoveGen.v, coq/gen/ReadGen.v (regenerated on this run)",
+                                                               "memory_storage": "tinyflux/storages.py: every method of class MemoryStorage -> coq/gen/MemStoreGen.v (C02_source_memory_storage_*; validated against the class by harness/memtie.py)", "memory_storage_validation": mtie,
                                                                "refused": refused, "equivalence_theorem": "gen_remove_helper_eq, gen_reset_eq, gen_remove_eq, gen_drop_eq (C02_source_*_is_the_model, C02_source_remove_exact, C02_source_drop_exact)"}})
